@@ -677,6 +677,32 @@ fn std_regions(k: &K) {
         unsafe { std::ptr::write_bytes(r.as_ptr(), 0x77, r.len() as usize) };
     }
     region_and_memory(k, "mmap", &m, &[0x1000, 0x1003, 0x1007, 0x1010, 0x1017], &[(0x1008, "one-past-a-region"), (0x100c, "in-a-hole"), (0, "address-0"), (u64::MAX, "u64::MAX"), (0x1018, "one-past-the-last-region")], &snap);
+    // the number of regions is a dimension of its own: one region (built that way, and left
+    // over after removals), three regions, none at all
+    {
+        let one = GuestMemoryMmap::<AtomicBitmap>::from_ranges(&[(GuestAddress(0x1000), 8)]).unwrap();
+        let three = GuestMemoryMmap::<AtomicBitmap>::from_ranges(&[(GuestAddress(0x1000), 8), (GuestAddress(0x1008), 8), (GuestAddress(0x2000), 4)]).unwrap();
+        let left = three.remove_region(GuestAddress(0x1008), 8).unwrap().0.remove_region(GuestAddress(0x2000), 4).unwrap().0;
+        let none = left.remove_region(GuestAddress(0x1000), 8).unwrap().0;
+        let fresh_none = GuestMemoryMmap::<AtomicBitmap>::new();
+        for (tag, m, mapped) in [
+            ("mmap, one region", &one, vec![0x1000u64, 0x1007]),
+            ("mmap, one region left after removals", &left, vec![0x1000, 0x1003]),
+            ("mmap, three regions", &three, vec![0x1000, 0x1007, 0x1008, 0x100f, 0x2003]),
+            ("mmap, emptied", &none, vec![]),
+            ("mmap, no region", &fresh_none, vec![]),
+        ] {
+            let snap = || -> Vec<u8> {
+                let mut v = Vec::new();
+                for r in m.iter() {
+                    v.extend_from_slice(unsafe { std::slice::from_raw_parts(r.as_ptr(), r.len() as usize) });
+                    v.push(r.bitmap().is_bit_set(0) as u8);
+                }
+                v
+            };
+            region_and_memory(k, tag, m, &mapped, &[(0x1010, "one-past-a-region"), (0x1800, "in-a-hole-or-beyond"), (0, "address-0"), (u64::MAX, "u64::MAX"), (0xfff, "just-below-a-region")], &snap);
+        }
+    }
     // the trait-default implementation
     let l = crate::layouts::Layout { regs: vec![(0x1000, 8), (0x1010, 8), (u64::MAX - 3, 4)] };
     let mock = crate::layouts::MockMemory::new(&l);
